@@ -95,6 +95,7 @@ func (m *CPU) Run(app risc.Application) (int, error) {
 	m.ctx.InitRAT()
 	cycle := 0
 	for {
+		m.ctx.VerifTick()
 		cycle++
 		log.Info(m.ctx, "Cycle %d", cycle)
 		m.decodeBus.Connect(cycle)
@@ -153,6 +154,7 @@ func (m *CPU) Run(app risc.Application) (int, error) {
 			cycle++
 			m.writeBus.Connect(cycle)
 			for !m.areWriteUnitsEmpty() || !m.writeBus.IsEmpty() {
+				m.ctx.VerifTick()
 				for _, wu := range m.writeUnits {
 					_ = wu.Cycle(wuReq{-1})
 				}
@@ -172,6 +174,7 @@ func (m *CPU) Run(app risc.Application) (int, error) {
 			fromCycle := cycle
 
 			for {
+				m.ctx.VerifTick()
 				isEmpty := true
 				cycle++
 
@@ -198,6 +201,7 @@ func (m *CPU) Run(app risc.Application) (int, error) {
 				m.writeBus.Connect(cycle + 1)
 				for _, wu := range m.writeUnits {
 					for !wu.isEmpty() || !m.writeBus.IsEmpty() {
+						m.ctx.VerifTick()
 						_ = wu.Cycle(wuReq{sequenceID})
 					}
 				}
@@ -219,6 +223,7 @@ func (m *CPU) Run(app risc.Application) (int, error) {
 	}
 
 	for {
+		m.ctx.VerifTick()
 		cycle++
 		empty := true
 		for _, cc := range m.cacheControllers {
